@@ -104,7 +104,7 @@ def gen_cases(ck):
 
 def main():
     ck = Check(PID)
-    ck.prove(["Shapes/EnvExec.v"], "props/C04.v")
+    eg.prove_with_decls(ck, ["Shapes/EnvExec.v"], "props/C04.v")
 
     if ck.replay:
         rp = json.load(open(ck.replay))
